@@ -172,7 +172,7 @@ PROPS = {
     ),
     "C15": dict(
         design_ref="DESIGN.md 4 (C15)",
-        level_text="Coq theorems over the printer regenerated from ast.go and the writer model: compact output (code and source map) is independent of all comments; erasing the trivia of a tree changes exactly the WriteLeadingComments arguments and nothing else in the operation list; a trivia list is written verbatim, once, at the current indentation, leaving a pending line break + indentation; comment text never influences what else is written. That a comment is still in front of the same statement after re-lexing the output is explored by the oracle (decorated programs with unique comments at every statement boundary).",
+        level_text="Coq theorems over the printer regenerated from ast.go and the writer, lexer and parser models: compact output (code and source map) is independent of all comments; erasing the trivia of a tree changes exactly the WriteLeadingComments arguments and nothing else in the operation list; a trivia list is written verbatim, once, at the current indentation, leaving a pending line break + indentation; comment text never influences what else is written. POSITION (C15_comments_stay_in_place, TriviaProofs.v): for every program of the grammar lexed from a source text and every pretty configuration that writes semicolons, lexing and parsing the formatted output gives a tree whose trivia lists at ALL statement boundaries - in front of every statement of every statement list at any depth, in front of every closing brace of a block, in front of the end of input - are those of the source item by item (comment texts verbatim, blank lines, in order), up to CommentSpec.norm_boundaries (a statement that shared a line with its predecessor starts a line of its own; blank lines at the very start and end of the input are trimmed): every comment is still in front of the same statement / brace / end, exactly once, in source order, blank-line separation kept. A comment without text is stored like a blank line by the lexer (KF5, reported by the oracle).",
         level_note="Trusted: Coq kernel, translator xjs2v (WriteTo bodies), extraction, harness/driver correspondence (lex suite for trivia collection, print and writer suites for replay). Recorded finding KF5 (a comment without text is stored like a blank line).",
         technique="Coq proof (tree induction over the generated printer; writer characterisation) + model/implementation correspondence",
         suites=[dict(suite="writer", n_quick=3000, n_thorough=100000, what="CodeWriter histories incl. WriteLeadingComments", projection=WRITER_NOMAP),
@@ -181,8 +181,8 @@ PROPS = {
                 dict(suite="lex", n_quick=2000, n_thorough=100000, what="trivia attached to tokens",
                      projection=POS_FREE)],
         oracle_n_quick=600, oracle_n_thorough=20000,
-        explanation="C15 (writer/printer clauses): C15_compact_none, C15_only_comment_ops_differ, C15_comments_verbatim, C15_content_inert.",
-        open_statements=["C15_comments_kept (position of every comment after re-lexing the pretty output)", "C15_blank_lines"],
+        explanation="C15: C15_compact_none, C15_only_comment_ops_differ, C15_comments_verbatim, C15_content_inert, C15_comments_stay_in_place.",
+        open_statements=["with semicolons off the formatted output may not parse (KF1, KF2): the position clause is then explored by the oracle"],
     ),
     "C01": dict(
         design_ref="DESIGN.md 4 (C01), 4.1",
